@@ -108,6 +108,13 @@ func (f *FaceModule) create(interest *spec.Interest, pitToken []byte, inFace uin
 		return
 	}
 
+	if params.Mtu != nil && *params.Mtu < face.MinMTU {
+		core.LogWarn(f, "MTU=", *params.Mtu, " is too small to carry a packet")
+		response = makeControlResponse(409, "MTU is too small", nil)
+		f.manager.sendResponse(response, interest, pitToken, inFace)
+		return
+	}
+
 	// Ensure does not conflict with existing face
 	existingFace := face.FaceTable.GetByURI(URI)
 	if existingFace != nil {
@@ -395,6 +402,12 @@ func (f *FaceModule) update(interest *spec.Interest, pitToken []byte, inFace uin
 		if params.Mask != nil {
 			responseParams["Mask"] = uint64(*params.Mask)
 		}
+		areParamsValid = false
+	}
+
+	if params.Mtu != nil && *params.Mtu < face.MinMTU {
+		core.LogWarn(f, "MTU=", *params.Mtu, " is too small to carry a packet")
+		responseParams["Mtu"] = uint64(*params.Mtu)
 		areParamsValid = false
 	}
 
